@@ -445,7 +445,9 @@ elf_get_bits(struct kdump_shared *shared,
 
 	cur = pfn_to_addr(shared, first);
 	next = pfn_to_addr(shared, last - first  + 1);
-	pls = ismem
+	pls = first > addr_to_pfn(shared, KDUMP_ADDR_MAX)
+		? NULL		/* PFN without an address */
+		: ismem
 		? find_closest_mem_load(edp, cur, next)
 		: find_closest_file_load(edp, cur, next);
 	if (!pls) {
@@ -514,7 +516,9 @@ elf_find_set(kdump_errmsg_t *err, struct kdump_shared *shared,
 	const struct load_segment *pls;
 	kdump_paddr_t pfn;
 
-	pls = ismem
+	pls = *idx > addr_to_pfn(shared, KDUMP_ADDR_MAX)
+		? NULL		/* PFN without an address */
+		: ismem
 		? find_closest_mem_load(edp, pfn_to_addr(shared, *idx),
 					KDUMP_ADDR_MAX)
 		: find_closest_file_load(edp, pfn_to_addr(shared, *idx),
@@ -561,7 +565,9 @@ elf_find_clear(kdump_errmsg_t *err, struct kdump_shared *shared,
 	struct elfdump_priv *edp = shared->fmtdata;
 	const struct load_segment *pls;
 
-	pls = ismem
+	pls = *idx > addr_to_pfn(shared, KDUMP_ADDR_MAX)
+		? NULL		/* PFN without an address */
+		: ismem
 		? find_closest_mem_load(edp, pfn_to_addr(shared, *idx),
 					KDUMP_ADDR_MAX)
 		: find_closest_file_load(edp, pfn_to_addr(shared, *idx),
